@@ -43,10 +43,13 @@ Fixpoint dedup_names (l : list name) (seen : list name) : list name :=
   | x :: r => if existsb (name_eqb x) seen then dedup_names r seen else x :: dedup_names r (x :: seen)
   end.
 
-Definition run_show (c : list name * list (name * N * obj) * (list tag * list name * list name * list name) * sexp)
+(** [warm] = every module of the world was imported before the call (their import effects are not printed) *)
+Definition run_show (c : bool * list name * list (name * N * obj) * (list tag * list name * list name * list name) * sexp)
   : string :=
-  let '(mods, attrs, (tys, pm, pc, pr), s) := c in
-  let '(log, r) := unjelly (mk_world mods attrs) (mk_policy tys pm pc pr) s [] in
+  let '(warm, mods, attrs, (tys, pm, pc, pr), s) := c in
+  let log0 := if warm then map (fun m => EImport m m) mods else [] in
+  let '(log1, r) := unjelly (mk_world mods attrs) (mk_policy tys pm pc pr) s log0 in
+  let log := skipn (List.length log0) log1 in
   let imps := dedup_names (flat_map (fun e => match e with EImport p _ | EImportTrial p _ => [p] | _ => [] end) log) [] in
   let insts := flat_map (fun e => match e with EInst c => [c] | EInstReg n => [n] | _ => [] end) log in
   match r with
